@@ -54,10 +54,13 @@ YO = {
 }
 # images that cannot be read to the end: a byte sequence that is not UTF-8 on a later line (after lines that load)
 YO_BYTES = {
+    # a malformed data line (odd number of hex digits) longer than 64 bytes with a two-byte character at every offset from 58 to 70
+    **{"longbad%d%s" % (k, n): ("0x000: 000                  | " + "x" * (k - 29) + ch + " tail of a long comment\n").encode("utf-8")
+       for k in range(60, 67) for n, ch in (("a", "\u00e9"), ("b", "\u20ac"), ("c", "\U0001F600"))},
     "latin1_later": b"0x000: 30f40001000000000000 |   irmovq $256, %rsp\n0x00a: 00                   |   halt # arr\xeat\n",
     "latin1_mid": b"0x000: 10                   |   nop\n                            | # caf\xe9\n0x001: 00                   |   halt\n",
 }
-BAD_YO = ["bad", "empty", "plusaddr", "plusbyte", "minusaddr", "nonascii", "oddhex", "nocolon", "latin1_later", "latin1_mid"]
+BAD_YO = ["longbad%d%s" % (k, n) for k in range(60, 67) for n in "abc"] + ["bad", "empty", "empty", "plusaddr", "plusbyte", "minusaddr", "nonascii", "oddhex", "nocolon", "latin1_later", "latin1_mid"]
 # a line without any '|' is listing text (labels, directives) and is skipped: this loads (an image without bytes)
 ODD_YO = ["shortline"]
 
@@ -114,8 +117,14 @@ def classify(rc, out, err):
     elif rc == 0 and ("halted in state" in out or "timed out after" in out or "error caused in state" in out):
         kind = "finalState"
         # the LAST dump is the final report
-        heads = [l for l in out.splitlines() if l.startswith("+") and ("in state" in l)]
+        lines = out.splitlines()
+        heads = [l for l in lines if l.startswith("+") and ("in state" in l)]
         last = heads[-1]
+        # the final report is the last thing printed: no dump of an intermediate state may follow it, and no line may be torn
+        last_at = max(i for i, l in enumerate(lines) if l is last or l == last)
+        if any(("between cycles" in l) for l in lines[last_at + 1:]) or any(
+                l.startswith(("|", "+")) and not l.rstrip().endswith(("|", "+")) for l in lines):
+            kind = "finalStateNotLast"
         if "halted" in last:
             banner = "halted"
         elif "timed out" in last:
@@ -151,7 +160,7 @@ def generate(binary, seed, count, outfile, workdir):
             traw = rnd.choice(TIMEOUTS)
             if hcl == "ok_run" and traw in ("4294967295",):
                 hcl = "ok_halt"        # a non-halting program with a 2^32-1 budget would run for hours
-            yo = rnd.choice(["good", "good", "good", "good", rnd.choice(BAD_YO), rnd.choice(BAD_YO), rnd.choice(ODD_YO), "missing", "image.txt", "dir"])
+            yo = rnd.choice(["good", "good", "good", "good", rnd.choice(BAD_YO), rnd.choice(BAD_YO), rnd.choice(BAD_YO), "empty", rnd.choice(ODD_YO), "missing", "image.txt", "dir"])
             nfree = rnd.choice([0, 1, 1, 2, 2, 2, 3, 3, 3, 4])
             free = []
             if nfree >= 1:
